@@ -1,11 +1,76 @@
 package main
 
+import (
+	"encoding/json"
+	"fmt"
+	"os"
+	"path/filepath"
+	"time"
+)
+
 // Registry of properties → obligations (harness entry points), bounds per tier,
 // vacuity witnesses, assumptions. See DESIGN.md §7 and Appendix A.
 
 var properties = map[string]*property{}
 
 func reg(p *property) { properties[p.ID] = p }
+
+// JSON registry: /verif/registry/Cxx.json (same fields as the property struct;
+// tier parameters as {"Params":{...},"MaxPaths":n,"Unwind":n,"TimeoutS":n}).
+type jsonTier struct {
+	Params   map[string]int
+	MaxPaths int
+	Unwind   int
+	MaxSteps int
+	TimeoutS int
+	SolverMs int
+}
+
+type jsonObligation struct {
+	Pkg, Entry, Solver string
+	Quick, Thorough    jsonTier
+	Witnesses          []string
+	RecursionLimits    map[string]int
+}
+
+type jsonProperty struct {
+	ID          string
+	Obligations []jsonObligation
+	Assumptions []string
+	Outside     []string
+	Encoded     []string
+	Intercepted []string
+	FleetModel  bool // append the standard fleet/DCS assumptions and intercept list
+}
+
+func (t jsonTier) cfg() tierCfg {
+	return tierCfg{Params: t.Params, MaxPaths: t.MaxPaths, Unwind: t.Unwind, MaxSteps: t.MaxSteps, SolverMs: t.SolverMs, Timeout: time.Duration(t.TimeoutS) * time.Second}
+}
+
+func loadJSONRegistry(fleetAssume, fleetIntercepted []string) {
+	files, _ := filepath.Glob(filepath.Join(verifDir, "registry", "C*.json"))
+	for _, f := range files {
+		b, err := os.ReadFile(f)
+		if err != nil {
+			continue
+		}
+		var jp jsonProperty
+		if err := json.Unmarshal(b, &jp); err != nil {
+			fmt.Fprintf(os.Stderr, "registry %s: %v\n", f, err)
+			os.Exit(2)
+		}
+		p := &property{ID: jp.ID, Assumptions: jp.Assumptions, Outside: jp.Outside, Encoded: jp.Encoded, Intercepted: jp.Intercepted}
+		if jp.FleetModel {
+			p.Assumptions = append(p.Assumptions, fleetAssume...)
+			p.Intercepted = append(p.Intercepted, fleetIntercepted...)
+		}
+		for _, o := range jp.Obligations {
+			p.Obligations = append(p.Obligations, obligation{Pkg: o.Pkg, Entry: o.Entry, Solver: o.Solver, Quick: o.Quick.cfg(), Thorough: o.Thorough.cfg(),
+				Witnesses: o.Witnesses, RecursionLimits: o.RecursionLimits})
+		}
+		reg(p)
+	}
+}
 
 func init() {
 	reg(&property{
@@ -143,4 +208,5 @@ func init() {
 		Intercepted: []string{"*zk.Conn methods Get/Set/Create/Delete/Children (fake server)", "encoding/json.Marshal/Unmarshal in zk.go", "dcs.retry (backoff)", "zerolog"},
 		Outside:     []string{"concurrent modification between the sub-requests of one operation", "JSON fidelity for other types", "ACL/TLS/host provider", "GetTree", "session-timeout timing (the server ends sessions; when is outside)"},
 	})
+	loadJSONRegistry(fleetAssume, fleetIntercepted)
 }
